@@ -54,7 +54,7 @@ def pairs():
     from skchange.anomaly_detectors import CAPA, MVCAPA, CircularBinarySegmentation, StatThresholdAnomaliser
     from skchange.change_detectors import PELT, MovingWindow, SeededBinarySegmentation
     from skchange.change_scores import CUSUM
-    from skchange.costs import GaussianCovCost, L2Cost
+    from skchange.costs import GaussianCovCost, GaussianVarCost, L2Cost
 
     return [
         dict(name="PELT+MovingWindow/L2Cost", tunes="none", shareable=True, scorer=lambda: L2Cost(), cuts=[[0, 4], [2, 7]],
@@ -97,6 +97,12 @@ def pairs():
         dict(name="Anomaliser(PELT)+PELT", tunes="none", shareable=False, scorer=lambda: L2Cost(), cuts=[[0, 4], [2, 9]],
              d1=("anomaliser", "cost", dict(stat_lower=-1.0, stat_upper=1.0), dict(stat_lower=-3.0, stat_upper=2.0)),
              d2=(PELT, "cost", dict(min_segment_length=1, penalty_scale=0.2), dict(min_segment_length=3, penalty_scale=0.5))),
+        # a per-column Gaussian cost (two prefix-sum tables): datasets A and A2 have the SAME shape, so a fitted table that is
+        # wrongly kept between fits of equal shape shows here
+        dict(name="MovingWindow+Circular/GaussianVarCost", tunes="none", shareable=True, scorer=lambda: GaussianVarCost(), cuts=[[0, 4], [2, 9]],
+             d1=(MovingWindow, "change_score", dict(bandwidth=2, threshold_scale=0.4), dict(bandwidth=3, threshold_scale=1.0)),
+             d2=(CircularBinarySegmentation, "anomaly_score", dict(min_segment_length=2, max_interval_length=6, threshold_scale=0.3),
+                 dict(min_segment_length=2, max_interval_length=8, threshold_scale=0.6))),
         # the anomaliser d1 is given the user's OWN detector object d2 as hyper-parameter: it must fit a clone, so d2 stays
         # exactly what its own history made it (and d1 is unaffected by what the user does with d2).  d2's two parameter
         # sets are equal, so that set_params on d2 never changes what d1 would clone.
@@ -415,7 +421,7 @@ def run(tier: str) -> int:
     chk.rule = ("stage A: all histories up to MaxLen over an alphabet of ~70 calls (2 detectors x {set_params x2, clone, deepcopy, fit_predict/fit_transform/update_predict x4 datasets, "
                 "fit/update x4 datasets, predict/transform/transform_scores x4 datasets} + scorer fit/evaluate), shared or "
                 "private scorer object, fit tuning none/one/both; stage B: histories of length 3 (a seeded slice, all in "
-                "thorough) and sampled longer ones, each executed on the compatible detector pairs out of 10 "
+                "thorough) and sampled longer ones, each executed on the compatible detector pairs out of 11 "
                 "(PELT, MovingWindow, Seeded/Circular binary segmentation, CAPA, MVCAPA, StatThresholdAnomaliser).  "
                 "Update-merge stage: every history fit(B1), update(B2)[, update(B3)] over ALL non-empty label sets of 0..L-1 "
                 "(appended, overlapping, re-sent, interleaved, gappy) x 5 index kinds, through a user-defined detector that records "
